@@ -8,15 +8,15 @@ TRUSTED = [
 ]
 UNVERIFIED = [
     'THE DEPOSIT ACTION IS NOT UNDER CONTRACT: Deposit::execute / execute_deposit (fees, price impact, pool deltas, validations) -- only located by text on every run: the pool is valued with (MaxAfterDeposit, maximize = true), the deposited amount with price.pick_price(false), minted tokens by usd_to_market_token_amount (C01 contract: rounded down; first deposit at one USD per token / divisor)',
-    'LiquidityMarketExt::pool_value itself (pool amounts x prices, pending pnl caps, borrowing fees, impact pool) and therefore the hypothesis "w2 <= v1 + u" of lemma_round_trip (minimised withdrawal value after the deposit is at most the maximised deposit value before it plus the deposited value at min prices, with unchanged prices and no other activity) are NOT proved; the round-trip clause is proved from that hypothesis',
+    'LiquidityMarketExt::pool_value is under contract as an exact formula over its reads (both sides\' token value with `maximize`, + the pool share of pending borrowing fees, - both sides\' pnl at the OPPOSITE extreme capped with the given kind, - the pending impact pool at the OPPOSITE index price); its reads (pool_value_without_pnl_for_one_side, total_pending_borrowing_fees (C13), pnl (C11), pending_position_impact_pool_distribution_amount (C14)) are fallible tables here. The hypothesis "w2 <= v1 + u" of lemma_round_trip (minimised withdrawal value after the deposit is at most the maximised deposit value before it plus the deposited value at min prices, with unchanged prices and no other activity) is NOT derived from that formula; the round-trip clause is proved from that hypothesis',
     'Withdrawal::execute (burn, fees on the outputs, pool deltas): not under contract; output_amounts, which fixes the amounts, is',
     '"all pool states reachable by deposits, withdrawals, swaps and positions": the lemmas hold for every supply, pool value and amount; reachability is not used',
     'no native replay registered for output_amounts (private method of the action); a failed obligation is reported with the verifier output and no-failing-input-found',
 ]
 ASSUMPTIONS = ['output_amounts is called with validated (non-zero) prices (the repository asserts it in debug builds)']
 MANIFEST = dict(engine='verus',
-    technique='Verus contracts on Withdrawal::output_amounts (on a carrier for Self), BalanceExt::{long,short}_usd_value, WithdrawParams accessors and the C01 units usd_to_market_token_amount / market_token_amount_to_usd, extracted from /repo each run; the statement as lemmas over those contracts',
-    text='PARTIAL (pricing core + withdrawal amounts; the deposit action is located, not proved). Deductive proof, unbounded: a withdrawal values the pool with the MaxAfterWithdrawal kind MINIMISED, requires it positive, and whatever it pays out, valued at the max token prices, never exceeds floor(pool value x burnt tokens / supply); minted tokens are floor(supply x usd / pool value), and usd / divisor for the first deposit (one USD per token). Lemmas: round trip -- depositing usd value u at pool value v1 and supply s and burning all minted tokens at a pool value w2 <= v1 + u is worth at most u; neither leg dilutes the others: (v1 + u) s >= v1 (s + m) after a deposit and (v - out) s >= v (s - m) after a withdrawal.',
+    technique='Verus contracts on Withdrawal::output_amounts and LiquidityMarketExt::pool_value (+ MarketUtils::cap_pnl) on carriers for Self, BalanceExt::{long,short}_usd_value, WithdrawParams accessors and the C01 units usd_to_market_token_amount / market_token_amount_to_usd, extracted from /repo each run; the statement as lemmas over those contracts',
+    text='PARTIAL (pricing core + withdrawal amounts; the deposit action is located, not proved). Deductive proof, unbounded: a withdrawal values the pool with the MaxAfterWithdrawal kind MINIMISED, requires it positive, and whatever it pays out, valued at the max token prices, never exceeds floor(pool value x burnt tokens / supply); minted tokens are floor(supply x usd / pool value), and usd / divisor for the first deposit (one USD per token); pool_value equals the token value of both sides + the pool share of pending borrowing fees - the capped pnl of both sides taken at the opposite extreme - the pending impact pool at the opposite index price. Lemmas: round trip -- depositing usd value u at pool value v1 and supply s and burning all minted tokens at a pool value w2 <= v1 + u is worth at most u; neither leg dilutes the others: (v1 + u) s >= v1 (s + m) after a deposit and (v - out) s >= v (s - m) after a withdrawal.',
     note='Partial claim. Deposit::execute, LiquidityMarketExt::pool_value and the hypothesis linking the two pool values are listed as unverified.')
 
 
